@@ -133,6 +133,9 @@ fn main() {
                 } else if a == "--max-violations" {
                     cfg.max_violations = args[i + 1].parse().unwrap();
                     i += 2;
+                } else if a == "--closure" {
+                    cfg.closure = true;
+                    i += 1;
                 } else if a == "--witnesses" {
                     cfg.n_witnesses = args[i + 1].parse().unwrap();
                     i += 2;
@@ -190,6 +193,9 @@ fn main() {
                     }
                     c.args(["--max-secs", &format!("{}", remaining), "--max-paths", &format!("{}", cfg.max_paths), "--qto", &format!("{}", cfg.query_timeout_ms), "--solver", &cfg.solver]);
                     c.args(["--witnesses", &format!("{}", cfg.n_witnesses / jobs + 1)]);
+                    if cfg.closure {
+                        c.arg("--closure");
+                    }
                     c.arg("--work-in").arg(&wf).arg("--out").arg(&of);
                     kids.push((c.spawn().expect("spawn shard"), wf, of));
                 }
@@ -207,6 +213,14 @@ fn main() {
                     let _ = std::fs::remove_file(of);
                 }
                 let _ = std::fs::remove_dir(&dir);
+                if cfg.closure && rep.closure.is_empty() {
+                    if rep.exhaustive {
+                        symx::explore::run_closure(&mut rep, &cfg.solver);
+                    } else {
+                        rep.closure = "skipped: the exploration did not close".into();
+                        rep.path_conditions.clear();
+                    }
+                }
                 rep.wall_s = t_start.elapsed().as_secs_f64();
             }
             let j = serde_json::json!({
